@@ -24,6 +24,18 @@ def behaviour():
     return b
 
 
+def maybe_launcher(b):
+    """Behaviour `launcher`: act like a wrapper script / job launcher that starts the real program as a child
+    in the same process group and waits for it. The launcher itself dies on SIGTERM (default action) without
+    forwarding the signal, so only a signal sent to the whole group stops the worker."""
+    if not b.get("launcher") or os.environ.get("FAKEMD_WORKER"):
+        return
+    import subprocess
+
+    p = subprocess.Popen([sys.executable] + sys.argv, env=dict(os.environ, FAKEMD_WORKER="1"))
+    sys.exit(p.wait())
+
+
 class Term:
     """SIGTERM handling: die at once, or only after `ignore_term` seconds."""
 
@@ -105,8 +117,10 @@ class Emitter:
     def finish(self, handles):
         for h in handles:
             h.flush()
-        if self.b["tail_sleep"]:
-            time.sleep(self.b["tail_sleep"])
+        t_end = time.time() + float(self.b["tail_sleep"] or 0.0)
+        while time.time() < t_end:  # in slices, so that a delayed reaction to SIGTERM (ignore_term) stays that short
+            time.sleep(0.01)
+            self.term.check()
         self.term.check()
         code = int(self.b["exit_code"]) if self.b["die_at"] is None else 0
         return code
